@@ -19,12 +19,16 @@ RULE = ("(lattice, enumerated completely in both tiers) the program z = f(a, b);
         "leaves default to non-constant; a result is constant iff all inputs are constant unless constant= is given, which wins (and raises "
         "for an integer result with constant=False). Judged: every tensor's flag equals the model; statements the model says must raise do "
         "(ValueError) and others do not; constant tensors never hold a .grad after backward; O-meta: the program re-executed with every "
-        "constant leaf tensor replaced by its plain ndarray yields bit-identical gradients for all other tensors. Non-trivial: >=1 constant "
+        "constant leaf tensor replaced by its plain ndarray yields bit-identical gradients for all other tensors. "
+        "M-path: after the backward passes a non-constant tensor holds a gradient exactly when a back-propagated tensor depends on it "
+        "through non-constant tensors only (views outside the graph excepted); a third of the random programs carry a SECOND graph, alive "
+        "at the same time, that shares only constant tensors with the first one (as direct operands next to a non-constant tensor) and is "
+        "back-propagated after it: no backward may raise. Non-trivial: >=1 constant "
         "and >=1 non-constant tensor upstream of L; distinct = structure + flag assignment.")
 ASSUMPTIONS = ["in-place targets keeping their flag is monitored by C04 on every statement of its histories"]
 TIERS = {"quick": {"cases": 6561 + 12000, "nodes": (2, 8)}, "thorough": {"cases": 6561 + 600000, "nodes": (2, 20)}}
-FLOORS = {"quick": {"flag_checks": 40000, "meta_compared": 10000, "lattice_cases": 6561},
-          "thorough": {"flag_checks": 200000, "meta_compared": 50000, "lattice_cases": 6561}}
+FLOORS = {"quick": {"flag_checks": 40000, "meta_compared": 10000, "lattice_cases": 6561, "path_checks": 20000, "second_graph_backwards": 500},
+          "thorough": {"flag_checks": 200000, "meta_compared": 50000, "lattice_cases": 6561, "path_checks": 100000, "second_graph_backwards": 2500}}
 LATTICE = list(itertools.product(*([list(itertools.product(["float64", "int64", "bool"], [None, True, False]))] * 3), [None, True, False], [None, True, False]))
 
 
@@ -93,6 +97,25 @@ def gen_case(rng, cfg, idx):
                 st.setdefault("kw", {})["constant"] = rng.choice([True, False, None])
                 if st.get("sp") in ("op", "np"):
                     st["sp"] = "mg"
+        if rng.random() < 0.3:
+            # a second graph, alive at the same time, that shares only CONSTANT tensors with the first one and is back-propagated
+            # after it: with plain arrays in their place the two graphs would be unrelated
+            cl = [st for st in prog if (st["k"] == "leaf" and st.get("kind") == "tensor" and (st.get("constant") is True or st["dtype"] != "float64")
+                                        and st.get("constant") is not False)
+                  or (st["k"] == "call" and st.get("kw", {}).get("constant") is True)]
+            if cl:
+                bw = prog[-1]
+                body = prog[:-1]
+                for j, cst in enumerate(rng.sample(cl, min(len(cl), rng.randint(1, 2)))):
+                    body.append({"k": "leaf", "out": f"g2y{j}", "kind": "tensor", "dtype": "float64", "shape": [], "data": [round(rng.uniform(0.5, 2.0), 3)],
+                                 "constant": None, "layout": "C"})
+                    # the shared constant is a DIRECT operand of an operation of the second graph, next to a non-constant tensor
+                    body.append({"k": "call", "out": f"g2m{j}", "fn": rng.choice(["multiply", "add"]), "a": [["r", f"g2y{j}"], ["r", cst["out"]]]
+                                 if rng.random() < 0.5 else [["r", cst["out"]], ["r", f"g2y{j}"]], "sp": "mg"})
+                    body.append({"k": "call", "out": f"g2s{j}", "fn": "sum", "a": [["r", f"g2m{j}"]], "sp": "mg"})
+                last = len([st for st in body if st.get("out", "").startswith("g2s")])
+                body.append({"k": "call", "out": "L2", "fn": "add_sequence" if last > 1 else "positive", "a": [["r", f"g2s{j}"] for j in range(last)], "sp": "mg"})
+                prog = body + [bw, {"k": "backward", "tgt": "L2", "seed": None}]
         return {"prog": prog, "L": c["L"], "lattice": False}
     return None
 
@@ -235,6 +258,32 @@ def run_case(case):
         else:
             nnon += 1
     grads = mgrun.snapshot_grads(it.env)
+    for i, st in enumerate(prog):
+        if st["k"] == "backward" and i in it.raised and st["tgt"] in it.env:
+            viol.append({"monitor": "backward", "mech": f"backward-raises:{type(it.raised[i]).__name__}",
+                         "msg": f"backward of {st['tgt']} (statement {i}) raised {type(it.raised[i]).__name__}: {it.raised[i]}"})
+    # M-path: a non-constant tensor holds a gradient after the backward passes exactly when some back-propagated tensor depends on it
+    # through non-constant tensors only (a constant on the way neither receives nor transmits)
+    if not it.raised or all(prog[i]["k"] != "backward" for i in it.raised):
+        reach = {st["tgt"] for st in prog if st["k"] == "backward" and flags.get(st["tgt"]) is False}
+        for st in reversed(prog):
+            if st["k"] == "call" and st.get("out") in reach:
+                for r in mgrun.stmt_refs(st):
+                    if flags.get(r) is False and types.get(r, ("", ""))[0] == "tensor":
+                        reach.add(r)
+        bw_first = min((i for i, st in enumerate(prog) if st["k"] == "backward"), default=len(prog))
+        created = {st["out"]: i for i, st in enumerate(prog) if "out" in st}
+        for n, f in flags.items():
+            t = it.env.get(n)
+            if f is not False or not mgrun.is_tensor(t) or t.constant or created.get(n, 0) > bw_first:
+                continue
+            cnt["path_checks"] = cnt.get("path_checks", 0) + 1
+            if n not in reach and (t.base is not None or any(it.env.get(m) is t for m in reach)):
+                continue    # a view outside the graph reports the corresponding view of its base's gradient (C06)
+            if (n in reach) != (grads.get(n) is not None):
+                viol.append({"monitor": "M-path", "mech": "nonconstant-without-grad" if n in reach else "grad-through-constant",
+                             "msg": f"{n} (non-constant) " + ("is connected to a back-propagated tensor through non-constant tensors but holds no gradient"
+                                                               if n in reach else "is connected only through constants (or not at all) yet holds a gradient")})
     # O-meta: constant leaf tensors -> plain arrays
     p2 = copy.deepcopy(prog)
     replaced = set()
@@ -276,6 +325,8 @@ def run_case(case):
             if (g is None) != (h is None) or (g is not None and not np.array_equal(g, h, equal_nan=True)):
                 viol.append({"monitor": "O-meta", "mech": "constant-tensor-vs-array",
                              "msg": f"{n}.grad differs when constant tensors {sorted(replaced)} are passed as plain arrays: {None if g is None else g.ravel()[:3]} vs {None if h is None else h.ravel()[:3]}"})
+    if any(st["k"] == "backward" and st["tgt"] == "L2" for st in prog):
+        cnt["second_graph_backwards"] = 1
     if case.get("lattice"):
         cnt["lattice_cases"] = 1
     sets["kinds"] = ["lattice" if case.get("lattice") else "random"]
